@@ -66,7 +66,7 @@ def cases(draw):
     other = draw(st.sampled_from([None, None, None, 5, 0, 2]))
     fibers = [draw(fiber_desc(shape, nested, default if (other is None or i % 2 == 0) else other)) for i in range(k)]
     return {"shape": shape, "nested": nested, "default": default, "fibers": fibers,
-            "prior": draw(st.integers(0, 15))}
+            "prior": draw(st.integers(0, 15)), "upd": draw(st.one_of(st.none(), st.integers(0, 50)))}
 
 
 def enum_small(tier):
@@ -267,66 +267,72 @@ def check(case, rec):
         alive.append(got_)
         return got_
 
-    # ---- a & b
-    lz = a.fiber & b.fiber          # one lazy fiber, traversed twice
-    for rep in range(2):
-        got = iterate(lz, "a&b", again=rep > 0)
-        want = [c for c in A if c in sB]
-        if [c for c, _ in got] != want:
-            raise Violation("and-coords", f"a&b yields {[c for c, _ in got]}, intersection is {want}; a={a.desc} b={b.desc}")
-        for c, p in got:
-            pa, pb = tup(p, "a&b", 2)
-            a.check_payload(c, pa, "a&b[a]")
-            b.check_payload(c, pb, "a&b[b]")
-    after("a&b")
+    def binary(tag=""):
+        A = [c for c, _ in a.pres]
+        B = [c for c, _ in b.pres]
+        sA, sB = set(A), set(B)
+        # ---- a & b
+        lz = a.fiber & b.fiber          # one lazy fiber, traversed twice
+        for rep in range(2):
+            got = iterate(lz, "a&b", again=rep > 0)
+            want = [c for c in A if c in sB]
+            if [c for c, _ in got] != want:
+                raise Violation("and-coords", f"a&b yields {[c for c, _ in got]}, intersection is {want}; a={a.desc} b={b.desc}")
+            for c, p in got:
+                pa, pb = tup(p, "a&b", 2)
+                a.check_payload(c, pa, "a&b[a]")
+                b.check_payload(c, pb, "a&b[b]")
+        after("a&b")
 
-    # ---- a | b
-    lz = a.fiber | b.fiber          # one lazy fiber, traversed twice
-    for rep in range(2):
-        got = iterate(lz, "a|b", again=rep > 0)
-        want = sorted(sA | sB)
-        if [c for c, _ in got] != want:
-            raise Violation("or-coords", f"a|b yields {[c for c, _ in got]}, union is {want}; a={a.desc} b={b.desc}")
-        for c, p in got:
-            m, pa, pb = tup(p, "a|b", 3)
-            wm = ("A" if c in sA else "") + ("B" if c in sB else "")
-            if m != wm:
-                raise Violation("or-mask", f"a|b mask at {c} is {m!r}, expected {wm!r}")
-            a.check_payload(c, pa, "a|b[a]") if c in sA else _fresh(a, c, pa, "a|b[a]")
-            b.check_payload(c, pb, "a|b[b]") if c in sB else _fresh(b, c, pb, "a|b[b]")
-        after("a|b")
+        # ---- a | b
+        lz = a.fiber | b.fiber          # one lazy fiber, traversed twice
+        for rep in range(2):
+            got = iterate(lz, "a|b", again=rep > 0)
+            want = sorted(sA | sB)
+            if [c for c, _ in got] != want:
+                raise Violation("or-coords", f"a|b yields {[c for c, _ in got]}, union is {want}; a={a.desc} b={b.desc}")
+            for c, p in got:
+                m, pa, pb = tup(p, "a|b", 3)
+                wm = ("A" if c in sA else "") + ("B" if c in sB else "")
+                if m != wm:
+                    raise Violation("or-mask", f"a|b mask at {c} is {m!r}, expected {wm!r}")
+                a.check_payload(c, pa, "a|b[a]") if c in sA else _fresh(a, c, pa, "a|b[a]")
+                b.check_payload(c, pb, "a|b[b]") if c in sB else _fresh(b, c, pb, "a|b[b]")
+            after("a|b")
 
-    # ---- a ^ b
-    lz = a.fiber ^ b.fiber          # one lazy fiber, traversed twice
-    for rep in range(2):
-        got = iterate(lz, "a^b", again=rep > 0)
-        want = sorted(sA ^ sB)
-        if [c for c, _ in got] != want:
-            raise Violation("xor-coords", f"a^b yields {[c for c, _ in got]}, symmetric difference is {want}; a={a.desc} b={b.desc}")
-        for c, p in got:
-            m, pa, pb = tup(p, "a^b", 3)
-            wm = "A" if c in sA else "B"
-            if m != wm:
-                raise Violation("xor-mask", f"a^b mask at {c} is {m!r}, expected {wm!r}")
-            a.check_payload(c, pa, "a^b[a]") if c in sA else _fresh(a, c, pa, "a^b[a]")
-            b.check_payload(c, pb, "a^b[b]") if c in sB else _fresh(b, c, pb, "a^b[b]")
-        after("a^b")
+        # ---- a ^ b
+        lz = a.fiber ^ b.fiber          # one lazy fiber, traversed twice
+        for rep in range(2):
+            got = iterate(lz, "a^b", again=rep > 0)
+            want = sorted(sA ^ sB)
+            if [c for c, _ in got] != want:
+                raise Violation("xor-coords", f"a^b yields {[c for c, _ in got]}, symmetric difference is {want}; a={a.desc} b={b.desc}")
+            for c, p in got:
+                m, pa, pb = tup(p, "a^b", 3)
+                wm = "A" if c in sA else "B"
+                if m != wm:
+                    raise Violation("xor-mask", f"a^b mask at {c} is {m!r}, expected {wm!r}")
+                a.check_payload(c, pa, "a^b[a]") if c in sA else _fresh(a, c, pa, "a^b[a]")
+                b.check_payload(c, pb, "a^b[b]") if c in sB else _fresh(b, c, pb, "a^b[b]")
+            after("a^b")
 
-    # ---- a - b
-    lz = a.fiber - b.fiber          # one lazy fiber, traversed twice
-    for rep in range(2):
-        got = iterate(lz, "a-b", again=rep > 0)
-        want = [c for c in A if c not in sB]
-        gotc = [c for c, _ in got]
-        if gotc != want:
-            if (a.desc["fmt"] == "U" and findings.is_open(ID, "P19-sub-drops-defaults-of-U-operand")
-                    and gotc == [c for c in want if a.pres_map[c] is not None and _nonempty(a, c)]):
-                rec.known("P19-sub-drops-defaults-of-U-operand")
-                break
-            raise Violation("sub-coords", f"a-b yields {gotc}, difference is {want}; a={a.desc} b={b.desc}")
-        for c, p in got:
-            a.check_payload(c, p, "a-b")
-    after("a-b")
+        # ---- a - b
+        lz = a.fiber - b.fiber          # one lazy fiber, traversed twice
+        for rep in range(2):
+            got = iterate(lz, "a-b", again=rep > 0)
+            want = [c for c in A if c not in sB]
+            gotc = [c for c, _ in got]
+            if gotc != want:
+                if (a.desc["fmt"] == "U" and findings.is_open(ID, "P19-sub-drops-defaults-of-U-operand")
+                        and gotc == [c for c in want if a.pres_map[c] is not None and _nonempty(a, c)]):
+                    rec.known("P19-sub-drops-defaults-of-U-operand")
+                    break
+                raise Violation("sub-coords", f"a-b yields {gotc}, difference is {want}; a={a.desc} b={b.desc}")
+            for c, p in got:
+                a.check_payload(c, p, "a-b")
+        after("a-b")
+
+    binary()
 
     # ---- n-ary forms over all k operands
     k = len(ops)
@@ -384,7 +390,42 @@ def check(case, rec):
                     _fresh(o, c, x, "lf[follower]")
     after("leader-follower")
 
+    # ---- "updates through them reach the operands": a stored element of `a` is updated in place (a value becomes
+    # the default, an explicit default becomes a value; below a sub-fiber: all of its leaves) and the operators are
+    # asked again -- they must describe `a` as it is now
+    sel = case.get("upd")
+    if sel is not None and a.fiber.payloads and a.desc["fmt"] == "C":
+        i = sel % len(a.fiber.payloads)
+        da = a.desc.get("default", default)
+        elems = [list(e) for e in a.desc["elems"]]
+        tgt = a.fiber.payloads[i]
+        flipped = None
+        if not nested:
+            nv = da if elems[i][1] != da else da + 7
+            tgt <<= nv
+            elems[i][1] = nv
+            flipped = nv != da
+        elif len(tgt.payloads):
+            sub = [list(e) for e in elems[i][1]]
+            has = bool(model.content_of_tree(sub, 1, da))
+            for j, q in enumerate(tgt.payloads):
+                nv = da if has else da + 7
+                q <<= nv
+                sub[j][1] = nv
+            elems[i][1] = sub
+            flipped = not has
+        if flipped is not None:
+            a.desc = dict(a.desc, elems=elems)
+            a.pres = presented_model(a.desc, shape, nested, da)
+            a.pres_map = dict(a.pres)
+            a.snap0 = observe.snap(a.fiber)
+            binary(" (after an in-place update of an element of a)")
+            rec.cls("asked-again-after-update")
+            rec.cls("update-makes-present" if flipped else "update-makes-absent")
+
     # ---- classification
+    A = [c for c, _ in a.pres]
+    sA, sB = set(A), {c for c, _ in b.pres}
     nonempty = sum(1 for s in sets if s)
     noisy = any((model.has_explicit_default(d["elems"], 2 if nested else 1, d.get("default", default))
                  or (nested and any(len(ch) == 0 for _, ch in d["elems"]))) for d in case["fibers"])
